@@ -11,7 +11,7 @@ META = dict(
 
 
 def run(ctx):
-    fams = [pc.family_limits, pc.family_timer, pc.family_grow, lambda: pc.family_overflow(False), lambda: pc.family_faults(False, ctx.seed)[:60]]
+    fams = [pc.family_limits, pc.family_resubmit_size, pc.family_timer, pc.family_grow, lambda: pc.family_overflow(False), lambda: pc.family_faults(False, ctx.seed)[:60]]
     mc = ["MCProducer.small.cfg"] if ctx.tier == "quick" else ["MCProducer.quick.cfg"]
     q = ctx.tier == "quick"
     extra = [("MCBatching", "MCBatching.limits4.cfg" if q else "MCBatching.limits.cfg", None),
